@@ -106,8 +106,23 @@ struct GlobalInfo {
     imported: bool,
 }
 
+fn ty_key(t: VT) -> usize {
+    match t {
+        VT::I32 => 0,
+        VT::I64 => 1,
+        VT::F32 => 2,
+        VT::F64 => 3,
+        VT::V128 => 4,
+        _ => 5,
+    }
+}
+
 #[derive(Clone)]
 struct Env {
+    /// every plain operator of the supported feature set (opzoo.rs), indexed by result type
+    zoo: std::rc::Rc<Vec<crate::opzoo::Op>>,
+    zoo_by_ret: std::rc::Rc<Vec<Vec<usize>>>,
+    zoo_void: std::rc::Rc<Vec<usize>>,
     sigs: Vec<(Vec<VT>, Vec<VT>)>,
     funcs: Vec<u32>, // sig index per function (imports first)
     globals: Vec<GlobalInfo>,
@@ -313,6 +328,7 @@ impl<'e> Body<'e> {
                 }
             }
             14 => self.special(t, depth),
+            15 if ty_key(t) < 5 => self.zoo_expr(t, depth),
             _ => self.leaf(t),
         }
     }
@@ -757,6 +773,7 @@ impl<'e> Body<'e> {
                 self.emit(I::End)
             }
             19 => self.emit(I::Nop),
+            21..=22 => self.zoo_stmt(depth),
             20 => {
                 // memory.grow
                 if let Some(m) = self.pick_mem() {
@@ -1111,6 +1128,123 @@ impl<'e> Body<'e> {
     }
 }
 
+impl<'e> Body<'e> {
+    fn zoo_allowed(&self, op: &crate::opzoo::Op) -> Option<Option<usize>> {
+        // Some(mem) if usable here (mem = which memory, for memory operators)
+        use crate::opzoo::{Feat, Op};
+        let feat_ok = |f: &Feat| match f {
+            Feat::Mvp => true,
+            Feat::Simd | Feat::Relaxed => self.env.p.simd,
+            Feat::Threads => self.env.p.threads,
+        };
+        match op {
+            Op::Plain { feat, .. } => feat_ok(feat).then_some(None),
+            Op::Lane { .. } => self.env.p.simd.then_some(None),
+            Op::Mem { feat, atomic, .. } => {
+                if !feat_ok(feat) {
+                    return None;
+                }
+                let cands: Vec<usize> = self.env.mems.iter().enumerate().filter(|(_, m)| !*atomic || m.shared).map(|(i, _)| i).collect();
+                if cands.is_empty() {
+                    None
+                } else {
+                    Some(Some(cands[self.budget.unsigned_abs() as usize % cands.len()]))
+                }
+            }
+            Op::MemLane { .. } => {
+                if !self.env.p.simd || self.env.mems.is_empty() {
+                    None
+                } else {
+                    Some(Some(self.budget.unsigned_abs() as usize % self.env.mems.len()))
+                }
+            }
+        }
+    }
+
+    fn zoo_emit(&mut self, idx: usize, mem: Option<usize>, depth: u32) -> Option<VT> {
+        use crate::opzoo::Op;
+        let op = self.env.zoo[idx].clone();
+        match op {
+            Op::Plain { ins, args, ret, feat } => {
+                if matches!(feat, crate::opzoo::Feat::Threads) {
+                    self.uses_atomics = true;
+                }
+                for a in args {
+                    self.expr(*a, depth + 1);
+                }
+                self.emit(ins);
+                ret
+            }
+            Op::Lane { mk, lanes, args, ret } => {
+                for a in args {
+                    self.expr(*a, depth + 1);
+                }
+                let l = self.rng.below(lanes as u64) as u8;
+                self.emit(mk(l));
+                ret
+            }
+            Op::Mem { mk, args, ret, natural, atomic, .. } => {
+                let m = mem.unwrap();
+                if atomic {
+                    self.uses_atomics = true;
+                }
+                self.addr(m, depth);
+                for a in args {
+                    self.expr(*a, depth + 1);
+                }
+                let ma = self.memarg(m, natural, atomic);
+                self.emit(mk(ma));
+                ret
+            }
+            Op::MemLane { mk, lanes, natural, store } => {
+                let m = mem.unwrap();
+                self.addr(m, depth);
+                self.expr(VT::V128, depth + 1);
+                let ma = self.memarg(m, natural, false);
+                let l = self.rng.below(lanes as u64) as u8;
+                self.emit(mk(ma, l));
+                if store {
+                    None
+                } else {
+                    Some(VT::V128)
+                }
+            }
+        }
+    }
+
+    fn zoo_expr(&mut self, t: VT, depth: u32) {
+        let env = self.env;
+        let cands = &env.zoo_by_ret[ty_key(t)];
+        for _ in 0..6 {
+            if cands.is_empty() {
+                break;
+            }
+            let idx = cands[self.rng.usize_below(cands.len())];
+            if let Some(mem) = self.zoo_allowed(&env.zoo[idx]) {
+                self.zoo_emit(idx, mem, depth);
+                return;
+            }
+        }
+        self.leaf(t)
+    }
+
+    fn zoo_stmt(&mut self, depth: u32) {
+        let env = self.env;
+        let n = env.zoo.len();
+        for _ in 0..6 {
+            // half the time a store-like operator, else any operator followed by drop
+            let idx = if self.rng.bool() && !env.zoo_void.is_empty() { env.zoo_void[self.rng.usize_below(env.zoo_void.len())] } else { self.rng.usize_below(n) };
+            if let Some(mem) = self.zoo_allowed(&env.zoo[idx]) {
+                if self.zoo_emit(idx, mem, depth).is_some() {
+                    self.emit(I::Drop);
+                }
+                return;
+            }
+        }
+        self.emit(I::Nop)
+    }
+}
+
 fn const_expr_for(t: VT, rng: &mut Rng, imported_immutable: &[(u32, VT)], declared: &[u32]) -> we::ConstExpr {
     let same: Vec<u32> = imported_immutable.iter().filter(|(_, gt)| *gt == t).map(|(i, _)| *i).collect();
     if !same.is_empty() && rng.chance(1, 3) {
@@ -1383,7 +1517,29 @@ pub fn generate(p: &GenParams) -> Generated {
         });
     }
 
+    let zoo = crate::opzoo::all();
+    let mut zoo_by_ret: Vec<Vec<usize>> = vec![Vec::new(); 6];
+    let mut zoo_void = Vec::new();
+    for (i, op) in zoo.iter().enumerate() {
+        let ret = match op {
+            crate::opzoo::Op::Plain { ret, .. } | crate::opzoo::Op::Mem { ret, .. } | crate::opzoo::Op::Lane { ret, .. } => *ret,
+            crate::opzoo::Op::MemLane { store, .. } => {
+                if *store {
+                    None
+                } else {
+                    Some(VT::V128)
+                }
+            }
+        };
+        match ret {
+            Some(t) => zoo_by_ret[ty_key(t)].push(i),
+            None => zoo_void.push(i),
+        }
+    }
     let env = Env {
+        zoo: std::rc::Rc::new(zoo),
+        zoo_by_ret: std::rc::Rc::new(zoo_by_ret),
+        zoo_void: std::rc::Rc::new(zoo_void),
         sigs: sigs.clone(),
         funcs: funcs.clone(),
         globals: globals.clone(),
